@@ -153,8 +153,8 @@ SWAPS = r"(swap|row_pair_mut|fill)"
 prop("C01", [sel("encaps"), sel("witness", fn=r"^(W1|W2|W3|W4|W6|W7|W9|<rule>|<witness>)"), sel("zero", fn=r"^(TooDee|DrainCol|DropGuard| as Drop)"), sel("zero", fn=r"^TooDee"), sel("shape"), sel("deleg", fn=r"TooDee::(push|pop)")],
      "Shape invariant of the owned array, structural clauses: (R-ENCAPS) the three fields are private to module toodee, no exported signature / impl hands out `&mut Vec`, so only the enumerated shape writers can change (len, num_rows, num_cols) - backed by compile_fail witnesses with compiling twins (assigning a field, building the struct or a cursor from parts, AsMut<Vec>, observing the array while a drain / mutable cursor is alive must not type-check); (R-ZERO) num_rows==0 <=> num_cols==0 in every abstract state at every TooDee construction site and at every return of a dimension writer; (R-UNWIND/R-LEAK/R-LEAK-DRAIN/R-HIDE) at every point where control can leave a writer (panic in caller code or a rejected call, leak of the returned drain, return) the triple is untouched, all-zero or in product form; (R-DELEG) push/pop delegate to insert/remove with the dimension as index.",
      declined=["that the length written by insert_row/insert_col/remove_row on the success path equals the new product (loop/pointer arithmetic, DESIGN 2.4)", "cells equal those of a rows-of-cells model (runtime values)"])
-prop("C02", [sel("layout", fn=r"(Index|IndexMut|::col$|::col_mut$|get_unchecked|<rule>)"), sel("guard", fn=r"(Index|IndexMut|::col$|::col_mut$| as TooDeeOps(Mut)?::col|get_col_params)"), sel("guard", rules=["R-ARITH"], fn=COLCUR), sel("units", fn=r"(Index|::col|get_unchecked|get_col_params|Col as|ColMut as)")],
-     "Checked access, structural clauses: (R-GUARD) every caller index of Index/IndexMut (row and coordinate forms) and col()/col_mut() on the three receivers is compared strictly with the dimension of its own unit by a guard whose failing edge panics and whose surviving edge dominates every arithmetic use and unchecked access; (R-ARITH) Col/ColMut indexing forms idx*(1+skip) only with checked arithmetic and reaches the cell through a checked slice index (no wrap for huge indices with overflow checks off); (R-UNITS) rows are never compared/multiplied as columns. (R-LAYOUT) every unchecked access of the accessors (Index/IndexMut, col/col_mut, the four get_unchecked*) on the three receivers has, as a canonical polynomial after composing nested slices, the address row*S+col (or the row / column range forms) with S the object's own stride, and the matching lemma's hypotheses (row < R, col < C) are path facts - hence all accessors denote one and the same cell.",
+prop("C02", [sel("layout", fn=r"(Index|IndexMut|::col$|::col_mut$|get_unchecked|::view|::view_mut|from_toodee|TooDeeView(Mut)?::new|<rule>)"), sel("shape", rules=["R-UNWIND", "R-LEAK", "R-LEAK-DRAIN", "R-STALE"]), sel("zero", fn=r"^(TooDee|DrainCol|DropGuard)"), sel("guard", fn=r"(Index|IndexMut|::col$|::col_mut$| as TooDeeOps(Mut)?::col|get_col_params)"), sel("guard", rules=["R-ARITH"], fn=COLCUR), sel("units", fn=r"(Index|::col|get_unchecked|get_col_params|Col as|ColMut as)")],
+     "Checked access, structural clauses: (R-GUARD) every caller index of Index/IndexMut (row and coordinate forms) and col()/col_mut() on the three receivers is compared strictly with the dimension of its own unit by a guard whose failing edge panics and whose surviving edge dominates every arithmetic use and unchecked access; (R-ARITH) Col/ColMut indexing forms idx*(1+skip) only with checked arithmetic and reaches the cell through a checked slice index (no wrap for huge indices with overflow checks off); (R-UNITS) rows are never compared/multiplied as columns. (R-LAYOUT) every unchecked access of the accessors (Index/IndexMut, col/col_mut, the four get_unchecked*) on the three receivers has, as a canonical polynomial after composing nested slices, the address row*S+col (or the row / column range forms) with S the object's own stride, and the matching lemma's hypotheses (row < R, col < C) are path facts - hence all accessors denote one and the same cell; the view constructors hand every view the slice, dimensions and stride these formulas assume (R-LAYOUT literals), and - because every accessor is an unchecked access justified by the shape invariant - the invariant's own exit-point rules (R-UNWIND, R-LEAK, R-LEAK-DRAIN, R-STALE, R-ZERO of C01) are part of this check as its premise.",
      declined=["the pen-and-paper lemmas L-POS/L-ROW/L-COL* themselves (trusted base)"])
 prop("C03", [sel("layout", fn=r"(::view|::view_mut|from_toodee|TooDeeView(Mut)?::new|<rule>)"), sel("zero", fn=VIEWS), sel("units", fn=VIEWS), sel("encaps", fn=r"^TooDeeView")],
      "Views, structural clauses: (R-ZERO) every TooDeeView/TooDeeViewMut construction site receives dimensions that are both zero or both non-zero - through the computed (not assumed) summary of the shared window validator, or through the zero-rule guard of the slice constructors; (R-UNITS) start/end/stride are used with the right axis; fields of the view types are module-private. (R-LAYOUT) the six view constructors, evaluated path-wise with the shared window validator inlined, hand get_unchecked a range that matches L-WINDOW (start*stride+start.0 .. + (rows-1)*stride+cols, with sr<er<=R, sc<ec<=C among the path facts) for non-empty windows and the constant empty range L-EMPTY for empty ones, slice the receiver's own backing slice, and store the receiver's own stride; TooDeeView::new / TooDeeViewMut::new slice the prefix num_cols*num_rows under the fact size <= len (L-PREFIX).",
@@ -162,7 +162,7 @@ prop("C03", [sel("layout", fn=r"(::view|::view_mut|from_toodee|TooDeeView(Mut)?:
 prop("C04", [sel("encaps", fn=r"^(TooDeeViewMut|RowsMut|ColMut|<impls>)"), sel("witness", fn=r"^(W5|W8|W10|<witness>)", keep_rule_floor=False), sel("units", fn=r"TooDeeViewMut"), sel("dup"), sel("take", fn=r"^(RowsMut|ColMut)"), sel("cursor", fn=r"^(RowsMut|ColMut)( |:|$)|<rule>"), sel("layout", fn=r"^TooDeeViewMut|<rule>")],
      "Confinement to a mutable view, structural clauses: the view's fields are module-private and RowsMut/ColMut fields crate-private, TooDeeViewMut/RowsMut/ColMut are not Clone (no second writer), the generic algorithm layers (ops/sort/translate/copy) are written against the trait only and use only permutation primitives (R-DUP); the mutable cursors never read a taken slice (R-TAKE). (R-LAYOUT) every writer of module view (index_mut x2, get_unchecked*_mut, col_mut, rows_mut, swap_rows, view_mut, from_toodee, new) matches a confined schema with S = the view's stride: L-POS / L-ROW / L-COLV / L-SWAPROWS / L-WINDOW and the literals RowsMut { cols: C, skip_cols: stride - C }, ColMut { skip: stride - 1 }; (R-CURSOR) RowsMut / ColMut then hand out only [k*(C+K), +C) / single cells.",
      declined=["effect inside the rectangle equals the effect on an owned copy (runtime values)"])
-prop("C05", [sel("rawbounds"), sel("conv", fn=r"IntoIterator|From<toodee"), sel("shape", rules=["R-HIDE", "R-LEAK", "R-LEAK-DRAIN", "R-DRAINSTEP"]), sel("dup"), sel("zstptr")],
+prop("C05", [sel("rawbounds"), sel("conv", fn=r"IntoIterator|From<toodee"), sel("shape", rules=["R-HIDE", "R-LEAK", "R-LEAK-DRAIN", "R-DRAINSTEP", "R-DRAINORDER", "R-STALE"]), sel("dup"), sel("zstptr")],
      "clauses only: ownership discipline of C05 - (R-RAWBOUNDS) every ptr::copy / ptr::write / ptr::read / from_raw_parts on the array's buffer in insert_row, insert_col, remove_col and the drain's destructor reads inside the extent that was initialised when the window opened and writes inside the reserved capacity, for every shape and index: offsets are polynomials relative to as_mut_ptr(), counted loops are summarised by induction-variable analysis (checked at the first and last iteration), and each bound is discharged by substituting the path facts (index <= dim, len == rows*cols) and checking coefficient signs; (R-HIDE) every bitwise move of elements (ptr::copy/read/write) happens while the Vec length is lowered and every normal path restores it, no restore on an unwind path; (R-DUP) the generic layers only permute; (R-ZSTPTR) progress is never decided by comparing element pointers (zero-sized T); (R-LEAK / R-LEAK-DRAIN) a leaked drain leaves a buffer whose visible part contains no moved-out element; (R-DRAINSTEP) the column drain's iterator methods only single-step the embedded cursor and read out each stepped-over element (a jumping override would forget elements).",
      declined=["the count: that raw moves copy each element to exactly one live slot (placement inside the buffer; DESIGN 2.1) - only that they stay inside it"])
 prop("C06", [sel("rawbounds", fn=INSERT + r"|<rule>"), sel("guard", fn=INSERT), sel("zero", fn=INSERT), sel("shape", fn=INSERT), sel("deleg", fn=r"TooDee::push"), sel("zstptr", fn=INSERT), sel("units", fn=INSERT)],
@@ -196,11 +196,11 @@ prop("C15", [sel("flipshape"), sel("layout", fn=r"get_unchecked_row_mut|<rule>")
 prop("C16", [sel("sortkey", fn=r"sort_.*row"), sel("deleg", fn=r"sort_.*row"), sel("sortshape", fn=r"sort_.*row"), sel("guard", fn=r"sort_.*row"), sel("units", fn=r"sort_.*row"), sel("dup", fn=r"sort_.*row")],
      "clauses only: sort-by-row family - (R-DELEG) each wrapper reaches the core of its own axis and stability with its index forwarded; (R-SORTSHAPE) s1 side sort of matching stability, s3 the key line is self[row] (resp. self.col(col)) of the given index, s2 comparator/key argument order, s4 the swap trace is applied to every row, s5 user code only before the first write; (R-GUARD) row < num_rows; (R-DUP) only ptr::swap moves elements.",
      declined=["build_swap_trace turning the permutation into transpositions; sortedness/stability as observed (std's contract given s1-s2)"])
-prop("C17", [sel("sortkey", fn=r"sort_.*col"), sel("deleg", fn=r"sort_.*col"), sel("sortshape", fn=r"sort_.*col"), sel("guard", fn=r"sort_.*col"), sel("units", fn=r"sort_.*col"), sel("dup", fn=r"sort_.*col")],
-     "clauses only: sort-by-column family - as C16 with columns: wrappers reach the *_col cores (R-DELEG, R-UNITS u4), the trace is applied with swap_rows, col < num_cols.",
+prop("C17", [sel("layout", fn=r"swap_rows|<rule>"), sel("nth", fn=r"swap_rows"), sel("sortkey", fn=r"sort_.*col"), sel("deleg", fn=r"sort_.*col"), sel("sortshape", fn=r"sort_.*col"), sel("guard", fn=r"sort_.*col"), sel("units", fn=r"sort_.*col"), sel("dup", fn=r"sort_.*col")],
+     "clauses only: sort-by-column family - as C16 with columns: wrappers reach the *_col cores (R-DELEG, R-UNITS u4), the trace is applied with swap_rows - whose three implementations move exactly the two named rows (R-LAYOUT L-SWAPROWS with the object's own stride, R-NTH for the default) - col < num_cols.",
      declined=["as C16"])
-prop("C18", [sel("serde", desc=r"^(t1|t2)|t1 |t2 ")],
-     "Serialisation, structural clauses: (t1) writer and reader tables agree - struct field names (derived Serialize), the literals of both view serialisers paired with the getter of the same name and cells(), the reader's key literals, missing_field literals and FIELDS are the same set; each key's value is stored in the slot of the same name and handed to the constructor in parameter order; (t2) map keys are requested as an owned-capable type, so every transport (str, bytes, reader, value tree, escaped keys) can supply them.",
+prop("C18", [sel("serde")],
+     "Serialisation, structural clauses: (t1) writer and reader tables agree - struct field names (derived Serialize), the literals of both view serialisers paired with the getter of the same name and cells(), the reader's key literals, missing_field literals and FIELDS are the same set; each key's value is stored in the slot of the same name and handed to the constructor in parameter order; (t2) map keys are requested as an owned-capable type, so every transport (str, bytes, reader, value tree, escaped keys) can supply them; (t4) the reader cannot panic on a document the writer produced (no division, force-unwrap, allocation-size or bounds panic in the reader's own code - this includes element types of size zero).",
      declined=["equality of round-tripped cells (element Serialize/Deserialize are caller code)"])
 prop("C19", [sel("serde"), sel("zero", fn=r"visit_map|Deserialize")],
      "Deserialisation, structural clauses: (t4) the reader's own code has no panicking callee or bounds assertion, and each panic condition of the asserting constructor it calls - K_OVF, K_LEN (classified from the constructor's MIR), K_ZERO (R-ZERO at the call) - is discharged by a dominating guard whose failing edge returns Err; (t1) missing/unknown fields are errors; the constructor receives the parsed values in order.",
